@@ -270,8 +270,8 @@ def run(run):
                 ('bitmap', cat['bitmap'], dict(subset_counts=(1, 2) if thorough else (2,), fmax=2, seeds=((r + 2) % 5,))),
                 ('plain', cat['plain'], dict(subset_counts=(2,), seeds=((r + 3) % 5,), compressions=(False, True) if thorough else (r % 2 == 0,))),
                 # character fields of NUL octets in every subset of a compressed message (position 4 carries the same class in
-                # all subsets; with value seed 1 that class is the "blank" one, here NUL): decoded as the empty string
-                ('nul strings', [[12001, 2001, 1001, 1015, 1008], [1001, 1001, 1001, 1008]], dict(subset_counts=(2, 3), seeds=(1,), compressions=(True,), nul=True)),
+                # all subsets; with value seed 3 - seven string classes - that class is the "blank" one, here NUL): decoded as the empty string
+                ('nul strings', [[12001, 2001, 1001, 1015, 1008], [1001, 1001, 1001, 1008]], dict(subset_counts=(2, 3), seeds=(1, 3), compressions=(True,), nul=True)),      # seed 3: (4 + 3) % 7 = 0, the NUL class, at position 4
                 # templates that END inside an operator construct (204 not cancelled, 221 not used up, a bitmap still being
                 # counted): what wiring keeps from one subset must not reach the next
                 ('open', cat['open'], dict(subset_counts=(2,), fmax=1 if not thorough else 2, seeds=((r + 2) % 5,), compressions=(False,))),
